@@ -1211,3 +1211,18 @@ multi('C02', 'driving-torque-by-pairwise-drivers-efficiency', 'mutant', [_IMP, (
 multi('C02', 'driving-torque-by-pairwise-of-the-tail', 'mutant', [_IMP, (SV, _DRV_OLD, """        for driver, driven in pairwise(self.__powertrain.elements[1:]):
             driven.driving_torque = driver.driving_torque * driven.master_gear_efficiency * driven.master_gear_ratio
 """)], 'C02')
+_EFF_OLD = """    powertrain_efficiency = 1
+    for element in powertrain.elements:
+        if isinstance(element, SpurGear | WormGear):
+            powertrain_efficiency *= element.master_gear_efficiency
+"""
+_RED_IMP = (RUTIL, "from gearpy.powertrain import Powertrain\n", "from gearpy.powertrain import Powertrain\nfrom functools import reduce\nfrom operator import imul\n")
+multi('C15', 'efficiency-product-by-reduce', 'benign', [_RED_IMP, (RUTIL, _EFF_OLD, """    powertrain_efficiency = reduce(imul, (element.master_gear_efficiency for element in powertrain.elements
+                                          if isinstance(element, SpurGear | WormGear)), 1)
+""", 0)])
+multi('C15', 'efficiency-product-by-reduce-spur-only', 'mutant', [_RED_IMP, (RUTIL, _EFF_OLD, """    powertrain_efficiency = reduce(imul, (element.master_gear_efficiency for element in powertrain.elements
+                                          if isinstance(element, SpurGear)), 1)
+""", 0)], 'C15')
+multi('C15', 'efficiency-product-by-reduce-of-ratios', 'mutant', [_RED_IMP, (RUTIL, _EFF_OLD, """    powertrain_efficiency = reduce(imul, (element.master_gear_ratio for element in powertrain.elements
+                                          if isinstance(element, SpurGear | WormGear)), 1)
+""", 0)], 'C15')
